@@ -130,6 +130,38 @@ def run(db, chk):
             r_wo = c.reachable_from([0], include_start=True, edge_filter=ef, avoid=[b for b, _ in sites])
             ok = not any(o in r_wo for o in oks)
         chk.ob(R3, "retain:%s" % var, ok, "every successful path of the %s arm passes retain_relevant_indices (%d site(s))" % (var, len(sites)), f.loc())
+    # CreateIndex adds index metadata built against the READ version: when the transaction is applied to a later manifest (a
+    # concurrent Project dropped the column: the conflict resolver lets the two pass) the new indices' fields have to be checked
+    # against the schema of the manifest being built, or version N+1 names a field that is not in its schema
+    sws, ef = arm_filter(c, "CreateIndex")
+    reach = c.reachable_from([0], include_start=True, edge_filter=ef)
+    shared = c.reachable_from([0], include_start=True, edge_filter=arm_filter(c, "Append")[1]) & \
+        c.reachable_from([0], include_start=True, edge_filter=arm_filter(c, "Delete")[1])
+    excl = reach - shared        # blocks of this arm only (not the common prologue / epilogue of build_manifest)
+    only_here = lambda b: b in excl
+    reads = [(b, t) for b, t in c.calls() if only_here(b) and has_name(t, "Schema::fields_pre_order", "Schema::field_by_id", "Schema::field_ids",
+                                                                          "Transaction::retain_relevant_indices")]
+    member = any(has_name(t, "Transaction::retain_relevant_indices") for _, t in reads)
+    for b, t in c.calls():
+        if not only_here(b):
+            continue
+        for a in t["args"]:
+            for o in c.op_origins(a, transparent=lambda t_: True):
+                if o[0] == "closure" and o[1] in db.fns and db.fns[o[1]].focus:
+                    member = member or any(has_name(t2, "HashSet::<T, S>::contains", "HashSet<T, S>::contains", "::contains_key", "::contains")
+                                           for _, t2 in db.fns[o[1]].cfg.calls())
+    okp = False
+    if reads:
+        r_wo = c.reachable_from([0], include_start=True, edge_filter=ef, avoid=[b for b, _ in reads])
+        okp = not any(o in r_wo for o in oks)
+    # ... and the check can stop the commit: an error leaves build_manifest from inside the arm, after the schema was read
+    stops = [i for (i, j, st) in c.aggregates(adt="Result", variant="Err") if i in excl and reads and
+             any(i in c.reachable_from([b], include_start=True) for b, _ in reads)] + \
+            [b for b, t in c.calls() if b in excl and has_name(t, "FromResidual") and reads and any(b in c.reachable_from([rb]) for rb, _ in reads)]
+    chk.ob(R3, "new-indices-checked:CreateIndex", bool(reads) and member and okp and bool(stops),
+           "the CreateIndex arm reads the field ids of the schema being built (%d site(s)), tests membership (%s), every successful path "
+           "passes the check (%s) and the check can fail the commit (%d error exit(s) in the arm)" % (len(reads), member, okp, len(stops)),
+           f.loc(reads[0][1]["ln"]) if reads else f.loc())
     # ---- write_manifest_file
     R4 = "DOM-publish"
     chk.rule(R4, "flags recomputed and max fragment id updated before the handler is called; sanity checks before publication")
